@@ -9,7 +9,7 @@ def clsOf (s : Str) : Option Cls :=
 
 def slotOf : String → Option Slot
   | "tokenCode" => some .tokenCode | "userinfo" => some .userinfo | "refreshGrant" => some .refreshGrant
-  | "introspect" => some .introspect | "revoke" => some .revoke | _ => none
+  | "introspect" => some .introspect | "revoke" => some .revoke | "bearerAuth" => some .bearerAuth | _ => none
 
 def natOf (s : Str) : Nat := s.foldl (fun a c => a * 10 + (c - 48)) 0
 
